@@ -136,14 +136,17 @@ def variations(rng, payload, fill, budget, exhaustive_cuts):
 
 def run(ctx, n_payloads=None, cut_budget=None):
     rng = ctx.rng
-    n_payloads = n_payloads if n_payloads is not None else ctx.budget(1, 6)
+    n_payloads = n_payloads if n_payloads is not None else ctx.budget(2, 6)
     cut_budget = cut_budget if cut_budget is not None else ctx.budget(4, 30)
     model_cases = []
     for variant in cc.VARIANTS:
         for j in range(n_payloads):
             length = variant[2]
-            if j % 3 == 2:      # a shorter form (still containing the discriminators): carriers must not matter there either
+            if j % 2 == 1:      # a shorter form (still containing the discriminators) that needs fill bits: the closing
+                # fragment then differs from the others, and variable-length tails make surplus/missing bits visible
                 length = rng.randrange(max(40, max(variant[3], default=0) + 1), variant[2])
+                if length % 6 == 0:
+                    length -= rng.choice([1, 2, 3, 4, 5])
             bits = cc.make_payload(rng, variant, length)
             payload, fill = ais.armor(bits)
             base_parts = build(payload, fill)
@@ -158,6 +161,10 @@ def run(ctx, n_payloads=None, cut_budget=None):
                 parts = build(payload, fill, **opts)
                 check(ctx, bits, base, desc, parts)
                 model_cases.append((bits, parts))
+                if desc[0] == 'fragments' and desc[2] == 'permuted':
+                    # the same parts once more, in fragment order: an earlier call must leave no trace (hidden state)
+                    again = build(payload, fill, **dict(opts, order=None))
+                    check(ctx, bits, base, ('fragments', desc[1], 'in-order-after-permuted'), again)
             if variant[2] <= 168 and j == 0 and not ctx.quick:
                 sp, sf = small
                 sbase = impl(build(sp, sf))
